@@ -119,9 +119,31 @@ package serializers
 // ---------------------------------------------------------------------------
 //@ pred cdxCompOf(c *cyclonedx.Component, n *sbom.Node) = c.BOMRef == n.Id && c.Name == n.Name && c.Version == n.Version && c.Description == n.Description && c.Copyright == n.Copyright && (n.Type == 1 ==> c.Type == "file") && ((n.Identifiers != nil && (1 in n.Identifiers)) ==> c.PackageURL == n.Identifiers[1]) && (!(n.Identifiers != nil && (1 in n.Identifiers)) ==> c.PackageURL == "")
 
+// a switch over the enum: state independent
+//@ func CDX.protobomExtRefTypeToCdxType
+//@   props C02
+//@   shadow
+
+// external references of a node in its component: one per reference, in order, with URL, comment and mapped type;
+// every hash value emitted for a reference is a hash value of that reference
+//@ pred cdxCompRefsOf(c *cyclonedx.Component, n *sbom.Node) = c.ExternalReferences != nil && len(*c.ExternalReferences) == len(n.ExternalReferences) && (forall a int :: 0 <= a && a < len(n.ExternalReferences) ==> (*c.ExternalReferences)[a].URL == n.ExternalReferences[a].Url && (*c.ExternalReferences)[a].Comment == n.ExternalReferences[a].Comment && (*c.ExternalReferences)[a].Type == CDX.protobomExtRefTypeToCdxType(nil, n.ExternalReferences[a].Type))
+//@ pred cdxCompRefHashesOf(c *cyclonedx.Component, n *sbom.Node) = forall a int, j int :: 0 <= a && a < len(n.ExternalReferences) && (*c.ExternalReferences)[a].Hashes != nil && 0 <= j && j < len(*(*c.ExternalReferences)[a].Hashes) ==> (exists k int32 :: (k in n.ExternalReferences[a].Hashes) && (*(*c.ExternalReferences)[a].Hashes)[j].Value == n.ExternalReferences[a].Hashes[k])
+
 //@ func CDX.nodeToComponent
 //@   props C02
 //@   inline
 //@   ensures [C02:cdx:component:nil] (result == nil) <==> (n == nil)
 //@   ensures [C02:cdx:component:scalars] n != nil ==> cdxCompOf(result, n)
+//@   ensures [C02:cdx:component:extrefs] n != nil ==> cdxCompRefsOf(result, n)
+//@   ensures [C02:cdx:component:extrefHashes] n != nil ==> cdxCompRefHashesOf(result, n)
+//@   invariant L2: [C02:inv] c != nil && fresh(c) && c.ExternalReferences != nil && fresh(c.ExternalReferences) && len(*c.ExternalReferences) == _i
+//@   invariant L2: [C02:inv] forall a int :: 0 <= a && a < _i ==> (*c.ExternalReferences)[a].URL == n.ExternalReferences[a].Url && (*c.ExternalReferences)[a].Comment == n.ExternalReferences[a].Comment && (*c.ExternalReferences)[a].Type == CDX.protobomExtRefTypeToCdxType(nil, n.ExternalReferences[a].Type)
+//@   invariant L2: [C02:inv] forall a int, j int :: 0 <= a && a < _i && (*c.ExternalReferences)[a].Hashes != nil && 0 <= j && j < len(*(*c.ExternalReferences)[a].Hashes) ==> (exists k int32 :: (k in n.ExternalReferences[a].Hashes) && (*(*c.ExternalReferences)[a].Hashes)[j].Value == n.ExternalReferences[a].Hashes[k])
+//@   invariant L3: [C02:inv] c != nil && fresh(c) && c.ExternalReferences != nil && fresh(c.ExternalReferences) && len(*c.ExternalReferences) == _i1 && 0 <= _i1 && _i1 < len(n.ExternalReferences) && er == n.ExternalReferences[_i1]
+//@   invariant L3: [C02:inv] forall a int :: 0 <= a && a < _i1 ==> (*c.ExternalReferences)[a].URL == n.ExternalReferences[a].Url && (*c.ExternalReferences)[a].Comment == n.ExternalReferences[a].Comment && (*c.ExternalReferences)[a].Type == CDX.protobomExtRefTypeToCdxType(nil, n.ExternalReferences[a].Type)
+//@   invariant L3: [C02:inv] forall a int, j int :: 0 <= a && a < _i1 && (*c.ExternalReferences)[a].Hashes != nil && 0 <= j && j < len(*(*c.ExternalReferences)[a].Hashes) ==> (exists k int32 :: (k in n.ExternalReferences[a].Hashes) && (*(*c.ExternalReferences)[a].Hashes)[j].Value == n.ExternalReferences[a].Hashes[k])
+//@   invariant L2: [C02:inv] forall a int :: 0 <= a && a < _i && (*c.ExternalReferences)[a].Hashes != nil ==> allocated((*c.ExternalReferences)[a].Hashes) && allocated(arr(*(*c.ExternalReferences)[a].Hashes))
+//@   invariant L3: [C02:inv] forall a int :: 0 <= a && a < _i1 && (*c.ExternalReferences)[a].Hashes != nil ==> allocated((*c.ExternalReferences)[a].Hashes) && allocated(arr(*(*c.ExternalReferences)[a].Hashes))
+//@   invariant L3: [C02:inv] (cap(hashList) == 0 || fresh(arr(hashList))) && allocated(arr(hashList)) && (forall a int :: 0 <= a && a < _i1 && (*c.ExternalReferences)[a].Hashes != nil ==> (*c.ExternalReferences)[a].Hashes != addr_hashList && (cap(hashList) == 0 || arr(*(*c.ExternalReferences)[a].Hashes) != arr(hashList)))
+//@   invariant L3: [C02:inv] forall j int :: 0 <= j && j < len(hashList) ==> (exists k int32 :: (k in er.Hashes) && hashList[j].Value == er.Hashes[k])
 //@   invariant L4: [C02:inv] c != nil && fresh(c) && c.BOMRef == n.Id && c.Name == n.Name && c.Version == n.Version && c.Description == n.Description && c.Copyright == "" && (n.Type == 1 ==> c.Type == "file") && ((1 in _V) ==> c.PackageURL == n.Identifiers[1]) && (!(1 in _V) ==> c.PackageURL == "")
